@@ -13,33 +13,78 @@ Oracle: after every re-enable / reset the commands sent -- ignoring at most one 
 presented at the event -- start with LGOOD(last accepted sequence number; 7 after a reset) and LCRD_A..D, nothing is
 sent while disabled, the advertisement completes within 200 PHY-ready cycles, the queue is empty and the next header
 (numbered from the advertisement) is accepted and delivered.
+
+Second scenario family (8 scenarios in every 400; engines/usb3_link_layer.py): the complete, unmodified USB3LinkLayer (LTSSM +
+training-set transceiver + idle handshake + timers + transmitter + header receiver + arbiter as wired by layer.py) against a
+host model sitting where the PHY would be.  `enable` and `usb_reset` of the header receiver are then whatever layer.py derives
+from the LTSSM, and the statement's "re-enabled after leaving U0, or after a USB reset" is exercised through every way the real
+link leaves and re-enters U0: Recovery (host- and device-initiated), Hot Reset (TS2 Reset bit), Warm Reset (LFPS), VBUS loss, and
+Recovery with a Warm Reset during the outage -- each after a drawn number of accepted headers and a drawn distance from the last
+event that makes the device send a link command.  The oracle is the same statement observed at the PHY-side sink and at
+`header_source`: after every rise of `trained` the commands start with LGOOD(7 if a USB reset happened since the last U0, else
+the last accepted number) + LCRD_A..D, no command while `trained` is low (beyond one in flight), and headers numbered from the
+advertisement are acknowledged, delivered unchanged and do not throw the link out of U0.  The 65536-TSEQ burst of Polling.RxEQ is
+fast-forwarded by pre-loading the TSEQ emitter's burst counter (see the engine's docstring); the thorough tier also plays it in
+full.
 """
 
+import hashlib
+
+from dsim.kernel import Violations
 from models import usb3_link as L
+from engines import usb3_link_layer as LL
 from checks import c37
 
 PROPERTY = "C38"
 ENGINE = "usb3_hdr_rx"
 CLOCK_HZ = 125e6
 RULES = {
-    "C38.readvertise": "after every re-enable / reset the first commands (beyond one already in flight) are exactly LGOOD(last accepted | 7 after reset), LCRD_A, B, C, D; nothing is sent while disabled",
-    "C38.fresh_state": "after re-entry the queue is empty, no stale LBAD / ignore / pending state survives and headers numbered from the advertisement are accepted, acknowledged and delivered",
-    "C38.progress": "the advertisement completes within 200 cycles (PHY ready) of the re-enable / reset",
+    "C38.readvertise": "after every re-enable / reset the first commands (beyond one already in flight) are exactly LGOOD(last accepted | 7 after reset), LCRD_A, B, C, D; nothing is sent while disabled"
+                       " [also at the level of the composed USB3LinkLayer: after every rise of `trained`, with reset = Hot Reset / Warm Reset / VBUS loss since the last U0]",
+    "C38.fresh_state": "after re-entry the queue is empty, no stale LBAD / ignore / pending state survives and headers numbered from the advertisement are accepted, acknowledged and delivered"
+                       " [composed link layer: ... on header_source, and the link does not leave U0 by itself]",
+    "C38.progress": "the advertisement completes within 200 cycles (PHY ready) of the re-enable / reset [composed link layer: of the rise of `trained`]",
 }
 PROBES = ["advertisements", "advertisement_complete", "disable_none", "disable_lcstart_word", "disable_command_word",
           "reset_while_enabled_none", "reset_while_enabled_lcstart_word", "reset_while_enabled_command_word",
           "inflight_LGOOD", "inflight_LCRD", "inflight_LBAD", "inflight_LRTY", "inflight_LUP", "inflight_LXU",
-          "headers_accepted", "all_buffers_full", "lbad_seen", "retries"]
+          "headers_accepted", "all_buffers_full", "lbad_seen", "retries",
+          # composed USB3LinkLayer scenarios
+          "ll_scenarios", "ll_u0_entries", "ll_advertisement_complete", "ll_reentry_after_recovery", "ll_reentry_after_bad_seq",
+          "ll_reentry_after_hot_reset", "ll_reentry_after_warm_reset", "ll_reentry_after_vbus", "ll_reset_with_nonzero_sequence",
+          "ll_command_in_flight_at_link_down", "ll_headers_accepted", "ll_headers_delivered", "ll_tseq_fast_forward",
+          "ll_link_down", "ll_advertisements"]
 META = {
-    "components_real": c37.META["components_real"],
-    "components_stubbed": c37.META["components_stubbed"] + ["LTSSM (enable / usb_reset driven by the scenario)"],
+    "components_real": c37.META["components_real"] + [
+        "link-layer scenarios: USB3LinkLayer complete (LTSSMController, TSTransceiver, IdleHandshakeHandler, LinkMaintenanceTimers, "
+        "PacketTransmitter, HeaderPacketReceiver, DataPacketReceiver / Transmitter, SuperSpeedStreamArbiter, wiring of layer.py)"],
+    "components_stubbed": c37.META["components_stubbed"] + ["LTSSM (enable / usb_reset driven by the scenario)"] + [
+        "link-layer scenarios: physical layer (stub object with the signals layer.py uses, driven by engines.usb3_link_layer.LinkLayerHost: "
+        "receiver detection, LFPS, TSEQ / TS1 / TS2 / idle, link commands, headers), protocol layer (header_source.ready pattern)"],
     "assumptions": c37.META["assumptions"] + [
         "the partner's link goes down with the DUT's: it sends no header within 5 cycles before a disable / reset and none while disabled; "
         "after re-entry it waits for the complete advertisement and numbers headers from it; headers unacknowledged at the outage are dropped",
         "a command presented no later than one cycle after the event counts as 'in flight' (two or three cycles after: only if it is not the expected LGOOD)",
-        "usb_reset is a one-cycle strobe while enabled; multi-cycle resets are only generated while disabled"],
+        "usb_reset is a one-cycle strobe while enabled; multi-cycle resets are only generated while disabled",
+        "link-layer scenarios: the host sits behind the (de)scrambler: `source` and `raw_source` carry the same unscrambled words; it is a legal "
+        "downstream port: it answers the device's training sets in lock step, sends its own advertisement (LGOOD_7, LCRD_A..D) after the "
+        "device's, sends headers only with credit, and no header within 5 cycles before reset signalling; it never sends header packets of its "
+        "own to be retried (a corrupted header is only ever the last one before leaving U0)",
+        "link-layer scenarios: a USB reset is: the Hot Reset handshake (host sent TS2 with Reset until the device answered with Reset TS2s), "
+        "LFPS Warm Reset signalling (1..200 cycles), or VBUS loss (1..200 cycles)",
+        "link-layer scenarios: one command counts as in flight if the sink started to present it no later than 2 cycles after `trained` fell "
+        "(1 as stand-alone + 1 for the registered arbiter), or if the sink has carried no logical idle since then (training sets have "
+        "precedence in the arbiter, so the receiver may have been presenting the command since the link went down); deliveries on "
+        "header_source while `trained` is low are attributed to the old epoch",
+        "link-layer scenarios: Polling.RxEQ is fast-forwarded by pre-loading the TSEQ emitter's ordered-set counter with 65536 - k (k = 2..24) in the "
+        "first RxEQ cycle (simulation state pre-load, no code is patched, all wiring real); thorough tier: 1 in 2400 scenarios plays the full burst"],
     "rule": "C37 traffic with 2-5 crash episodes per run: disable (len 1..200, optional reset during / on the edge) or reset strobe, placed 0..18 cycles after "
-            "an op that triggers a link command (hdr / bad hdr / retry_required / keepalive / lxu); distinct = FSM vectors + fault kinds + crash-point classes",
+            "an op that triggers a link command (hdr / bad hdr / retry_required / keepalive / lxu); distinct = FSM vectors + fault kinds + crash-point classes"
+            " || 8 of every 400 scenarios drive the complete USB3LinkLayer: power-on bring-up, then 2-3 (thorough: 2-4) U0 epochs each with 0-6 headers / "
+            "idle / LGO_U1 and optionally a trigger (corrupted header, LGO_U1, ~1250 idle cycles for a keep-alive), left 0..40 cycles later by "
+            "recovery | hot_reset | warm_reset | vbus | bad_seq (device-initiated recovery) | recovery_warm (first kind rotates over all six, so "
+            "each is reached in the quick tier), some before the host has seen the advertisement; PHY-ready and consumer stall patterns; 1..4 "
+            "headers after the last re-entry",
 }
 TIERS = {"quick": {"runs": 2500, "wall": 70}, "thorough": {"runs": 30000, "wall": 900}}
 
@@ -47,6 +92,8 @@ RULEMAP = {"readvertise": "C38.readvertise", "fresh_state": "C38.fresh_state", "
 
 
 def gen(rng, tier, index):
+    if is_link_layer_index(index):
+        return gen_link_layer(rng, tier, index)
     cfg = c37.gen_config(rng)
     cfg["eager"] = int(rng.random() < 0.7)
     n_ep = rng.randint(2, 4 if tier == "quick" else 5)
@@ -96,5 +143,135 @@ def gen(rng, tier, index):
     return {"engine": ENGINE, "config": cfg, "ops": ops}
 
 
+# --------------------------------------------------------------------------------------------------
+# composed link layer (engines/usb3_link_layer.py)
+# --------------------------------------------------------------------------------------------------
+# LL_GROUP consecutive scenarios in every LL_PERIOD drive the complete USB3LinkLayer (consecutive: they land in one runner chunk, so
+# that few workers have to elaborate and compile the whole link layer, which costs 2-8 s)
+LL_PERIOD = 400
+LL_GROUP = 8
+LL_FIRST = 1
+LL_FULL_EVERY = 2400       # thorough tier: one in LL_FULL_EVERY plays the complete 65536-TSEQ burst (no fast-forward)
+LL_ROTATION = ["hot_reset", "recovery", "warm_reset", "bad_seq", "vbus", "recovery_warm"]
+LL_EXITS = ["recovery", "recovery", "recovery", "hot_reset", "hot_reset", "hot_reset", "warm_reset", "warm_reset", "vbus", "bad_seq",
+            "recovery_warm"]
+
+
+def is_link_layer_index(index):
+    return LL_FIRST <= index % LL_PERIOD < LL_FIRST + LL_GROUP
+
+
+def ll_ordinal(index):
+    return (index // LL_PERIOD) * LL_GROUP + index % LL_PERIOD - LL_FIRST
+
+
+def gen_link_layer(rng, tier, index):
+    full = tier == "thorough" and index % LL_FULL_EVERY == LL_FIRST + LL_GROUP - 1
+    k = rng.choice(["always", "always", "half", "rand", "sparse"])
+    ready = {"always": [1], "half": [1, 0], "sparse": [1] + [0] * rng.randint(2, 3)}.get(k) or c37.pattern(rng, ("rand",))
+    if full or all(ready):
+        ready = [1]
+    cfg = {"ready": ready, "queue_ready": c37.pattern(rng, ("always", "always", "half", "sparse", "rand", "burst", "burst")),
+           "ff": None if full else [rng.randint(2, 24) for _ in range(8)], "lfps_gap": rng.choice([1, 4, 9]),
+           "hot_extra": rng.choice([0, 2, 8, 20])}
+    n_ep = rng.randint(1, 2) if full else rng.randint(2, 3 if tier == "quick" else 4)
+    kinds = [rng.choice(LL_EXITS) for _ in range(n_ep)]
+    # every reset kind / plain recovery leads the list in turn, so that a small number of scenarios covers all of them
+    kinds[0] = LL_ROTATION[ll_ordinal(index) % len(LL_ROTATION)]
+    if full:
+        kinds = [k if k not in ("warm_reset", "vbus", "recovery_warm") else "hot_reset" for k in kinds]
+    ops = []
+
+    def traffic(lo, hi):
+        for _ in range(rng.randint(lo, hi)):
+            r = rng.random()
+            if r < 0.8:
+                op = c37.gen_header(rng, False, b2b_bias=0.2)
+                op.pop("dpp", None)
+                op.pop("wgaps", None)
+                ops.append(op)
+            elif r < 0.92:
+                ops.append({"op": "idle", "n": rng.choice([1, 3, 10, 30])})
+            else:
+                ops.append({"op": "lgo"})
+
+    for kind in kinds:
+        traffic(0, 6)
+        # a trigger that makes the device send a command close to the way out of U0
+        r = rng.random()
+        if r < 0.15:
+            op = c37.gen_header(rng, False, b2b_bias=0.0)
+            op.pop("dpp", None)
+            op.pop("wgaps", None)
+            op["fault"] = {"kind": "hdr_crc5", "bit": rng.randrange(16, 32)}
+            ops.append(op)
+        elif r < 0.25:
+            ops.append({"op": "lgo"})
+        elif r < 0.35:
+            ops.append({"op": "idle", "n": 1250 - rng.randint(0, 60)})       # a keep-alive (LUP) falls due around the way out
+        ep = {"op": "exit", "kind": kind, "delay": rng.choice([0, 0, 1, 2, 3, 5, 8, 13, 25, rng.randint(0, 40)]),
+              "len": rng.choice([1, 1, 2, 5, 40, 200, rng.randint(1, 200)])}
+        if rng.random() < 0.12:
+            ep["early"] = 1
+        if kind == "bad_seq":
+            ep.update({"delta": rng.randint(1, 7), "dw0": rng.getrandbits(32) & ~0x1F | 4, "dw1": rng.getrandbits(32), "dw2": rng.getrandbits(32)})
+        if kind == "recovery_warm":
+            ep["ts1_more"] = rng.choice([0, 4, 20, 60])
+        ops.append(ep)
+    # after the last re-entry: headers prove that the receive state is fresh
+    traffic(1, 4)
+    if not any(o["op"] == "hdr" for o in ops[-4:]):
+        op = c37.gen_header(rng, False, b2b_bias=0.0)
+        op.pop("dpp", None)
+        op.pop("wgaps", None)
+        ops.append(op)
+    return {"engine": LL.__name__.split(".")[-1], "config": cfg, "ops": ops}
+
+
+def ll_max_cycles(scn):
+    cfg = scn["config"]
+    dens = max(1, sum(cfg["ready"])) / len(cfg["ready"])
+    dens_q = max(1, sum(cfg["queue_ready"])) / len(cfg["queue_ready"])
+    burst = 0 if cfg.get("ff") is not None else 8 * LL.TSEQ_SETS + 2000
+    total = 3000 / dens + burst
+    for op in scn["ops"]:
+        k = op["op"]
+        if k == "exit":
+            total += 3500 / dens + op.get("len", 0) + op.get("delay", 0) + 4 * op.get("ts1_more", 0)
+            if op["kind"] in ("warm_reset", "vbus", "recovery_warm"):
+                total += burst
+        elif k == "hdr":
+            total += 60 / dens + 60 / dens_q + 40
+        elif k == "idle":
+            total += op["n"] + 5
+        else:
+            total += 40
+    return int(total * 1.5) + 2000
+
+
+def execute_link_layer(scn):
+    bench = LL.link_layer_bench()
+    viol = Violations()
+    probes = {p: 0 for p in PROBES}
+    faults = {}
+    host = LL.LinkLayerHost(scn, viol, probes, faults, RULEMAP)
+    cap = ll_max_cycles(scn)
+    log = bench.run([host], cap, init=dict(LL.INIT_PINS))
+    if not viol and not host.done and not host.dead:
+        raise RuntimeError(f"host script did not finish within {cap} cycles (phase {host.phase}, op {host.opi}/{len(scn['ops'])})")
+    probes["ll_scenarios"] += 1
+    probes["ll_headers_accepted"] += host.accepted_total
+    if not all(scn["config"]["ready"]):
+        faults["ready_stall"] = 1
+    if not all(scn["config"]["queue_ready"]):
+        faults["consumer_stall"] = 1
+    sig = hashlib.blake2b(repr(("link_layer", sorted(log.fsm_vectors), sorted(faults), host.exits,
+                                sorted(k for k, v in probes.items() if v))).encode(), digest_size=8).hexdigest()
+    return {"violations": viol.items, "cycles": log.cycles, "faults": faults, "probes": probes, "sig": sig,
+            "nontrivial": host.epochs > 1 and host.accepted_total > 0, "digest": log.digest, "fsm": len(log.fsm_vectors)}
+
+
 def run(scn):
+    if scn.get("engine") == "usb3_link_layer":
+        return execute_link_layer(scn)
     return c37.execute(scn, RULEMAP, PROBES)
